@@ -287,6 +287,67 @@ func TestVerifC19Sets(t *testing.T) {
 		}
 		o.emit(map[string]interface{}{"k": "sets", "sc": sc, "K": K, "k0": k0, "gap": gapScenario, "hist": histHex, "chain0": chainLen0, "ops": ops, "mon": mon, "poisoned": poisoned})
 	}
+	verifC19FaultScenarios(o, r, sim)
+}
+
+// transient fault on ONE set inside a range that is being fetched (rows "sets-fault", monitors only): the lookup may fail, but
+// whatever the store holds afterwards, position i is the set with index i, and a later lookup of every index returns that set
+func verifC19FaultScenarios(o *vout, r *vrng, sim *verifEthSim) {
+	for sc := 0; sc < 8; sc++ {
+		K := 4 + r.below(4)
+		hist := make([][]eth_common.Address, K)
+		for i := range hist {
+			hist[i] = verifAddrs(r, 1+r.below(3))
+		}
+		k0 := 1 + r.below(2)
+		init := []*common.GuardianSet{}
+		for i := 0; i < k0; i++ {
+			init = append(init, &common.GuardianSet{Keys: hist[i], Index: uint32(i)})
+		}
+		c := make(chan *common.GuardianSet, 64)
+		gs := verifStore(init, sim.url, c)
+		sim.set(hist, false)
+		bad := k0 + r.below(K-1-k0) // a set that is NOT the last one of the range k0 .. K-1
+		sim.mu.Lock()
+		sim.failIdx = map[uint32]int{uint32(bad): 1}
+		sim.mu.Unlock()
+		mon := []string{}
+		ops := []map[string]interface{}{}
+		first := verifGet(gs, K-1)
+		ops = append(ops, map[string]interface{}{"op": "get", "idx": K - 1, "res": first, "failing_set": bad})
+		for round := 0; round < 2; round++ {
+			for i := K - 1; i >= 0; i-- {
+				res := verifGet(gs, i)
+				ops = append(ops, map[string]interface{}{"op": "get", "idx": i, "res": res})
+				switch res.Res {
+				case "panic":
+					mon = append(mon, fmt.Sprintf("GetGuardianSet(%d) panicked after a transient failure of set %d: %s", i, bad, res.Msg))
+				case "ok":
+					if res.Index != int64(i) {
+						mon = append(mon, fmt.Sprintf("GetGuardianSet(%d) returned the set with index %d (after a transient failure of set %d while the range %d..%d was fetched)", i, res.Index, bad, k0, K-1))
+					} else if res.Keys != verifKeysHex(hist[i]) {
+						mon = append(mon, fmt.Sprintf("GetGuardianSet(%d) returned keys that are not those of set %d (after a transient failure of set %d)", i, i, bad))
+					}
+				default:
+					if round == 1 {
+						mon = append(mon, fmt.Sprintf("GetGuardianSet(%d) still fails after the node recovered: %s", i, res.Msg))
+					}
+				}
+			}
+		}
+		cur, idxs := verifProj(gs)
+		for pos, ix := range idxs {
+			if int64(pos) != ix {
+				mon = append(mon, fmt.Sprintf("the store holds the set with index %d at position %d (after a transient failure of set %d)", ix, pos, bad))
+				break
+			}
+		}
+		verifDrain(c)
+		sim.mu.Lock()
+		sim.failIdx = nil
+		sim.mu.Unlock()
+		o.emit(map[string]interface{}{"k": "sets-fault", "sc": sc, "K": K, "k0": k0, "failing_set": bad, "cur": cur, "list": idxs, "ops": ops, "mon": mon})
+	}
 }
 
 // TestVerifC19Race : one goroutine appends (updateGuardianSets, as the periodic updater does) while others look sets up.
